@@ -66,6 +66,8 @@ class GameIO:
     def cmp_gen(self, den_k, den_1) -> list[str]:
         raise NotImplementedError
 
+    structural_only = False  # set while a C14 write is gated: semantic preconditions are not reasons then
+
     def writable(self, a, layout=None) -> str:
         """'' if the in-memory object lies in the writer property's quantifier domain."""
         return ""
@@ -309,8 +311,13 @@ class IoWrite(OpSpec):
         if frame_only:
             # inputs-unchanged is judged also for charts a writer cannot represent faithfully, as long as writing them is
             # cheap: structural preconditions (grid, measure lines, columns) still apply, purely semantic ones do not
-            why = g.writable(a, layout)
-            if why and any(why.startswith(x) for x in ("LNOBJ id", "sample table", "header", "sample not bytes", "tempo value with more")):
+            g.structural_only = True
+            try:
+                structural = g.writable(a, layout)
+            finally:
+                g.structural_only = False
+            why = structural or g.writable(a, layout)
+            if not structural and why and any(why.startswith(x) for x in ("LNOBJ id", "sample table", "header", "sample not bytes", "tempo value with more")):
                 out.probes.append("write_outside_writer_domain:" + why.split(" ")[0])
                 why = ""
         if why:
